@@ -330,7 +330,7 @@ def st_case():
         "conf": st.sampled_from(["global"]) | idx | idx,
         "no_color": st.sampled_from([False, False, False, True]),
         "palette": st.sampled_from([None, None, "class", "object"]),
-        "consume": st.sampled_from(["whole", "whole", "lines", "both_wl", "both_lw", "zip_ab", "zip_ba", "lines_kept"]),
+        "consume": st.sampled_from(["whole", "whole", "lines", "both_wl", "both_lw", "zip_ab", "zip_ba", "lines_kept", "lines_after_partial"]),
         "fresh": st.sampled_from([False, False, False, True]),
     })
     op = st.one_of(
